@@ -85,7 +85,7 @@ def compatible(P, s1, s2):
 class Binary(Sub):
     name = 'binary'
     doc = 'elementwise + - * / with every operand kind, in place and out of place, vs per-matrix numpy loop; aliasing'
-    budget = {'quick': 1600, 'thorough': 64000}
+    budget = {'quick': 1600, 'thorough': 256000}
 
     def strategy(self, tier):
         seed = st.integers(0, 2 ** 31 - 1)
@@ -199,7 +199,7 @@ class SpaceMatrix(Sub):
 class DotInvert(Sub):
     name = 'dot-invert'
     doc = 'dot / @ / @= / invert (in and out of place) vs per-matrix np.matmul / np.linalg.inv; A.dot(A.invert()) = I'
-    budget = {'quick': 1200, 'thorough': 48000}
+    budget = {'quick': 1200, 'thorough': 192000}
 
     def strategy(self, tier):
         seed = st.integers(0, 2 ** 31 - 1)
@@ -289,7 +289,7 @@ NAMES = ['A', 'B', 'C', 'poly', 'nano', 'solvent', 'X1']
 class Named(Sub):
     name = 'named-access'
     doc = 'pair assignment / read by type names in both orders, unknown names -> ValueError, get_copy independence, default types'
-    budget = {'quick': 800, 'thorough': 32000}
+    budget = {'quick': 800, 'thorough': 128000}
 
     def strategy(self, tier):
         seed = st.integers(0, 2 ** 31 - 1)
@@ -372,7 +372,7 @@ class Named(Sub):
 class Program(Sub):
     name = 'program'
     doc = 'programs of <=8 in-place operations (+= -= *= /= with scalar/array/MatrixArray, named set, get_copy snapshots) mirrored on ndarrays'
-    budget = {'quick': 600, 'thorough': 24000}
+    budget = {'quick': 600, 'thorough': 96000}
 
     def strategy(self, tier):
         seed = st.integers(0, 2 ** 31 - 1)
